@@ -22,6 +22,11 @@ SCALAR_FAMILIES = ["str", "loglevel", "appmode", "int", "float", "port", "bool",
 ALGS = list(model.ALGS)
 
 
+# model environment at generation time: "$FX" stands for the sandbox fixture directory
+GEN_ENV = {"root": "$", "cwd": "$CWD", "paths": {"$FX": "dir", "$FX/file.txt": "file", "$FX/dir": "dir",
+                                                  "$FX/dir/inner.txt": "file"}}
+
+
 def pick_keys(rng, n, avoid=()):
     pool = [k for k in KEYPOOL if k not in avoid]
     rng.shuffle(pool)
@@ -123,7 +128,9 @@ def gen_field(rng, fam=None, depth=1, families=None, allow_k5=False, cfg_items=F
         else:
             inner = [f for f in fams if f not in ("appmode",)]
             node["item"] = gen_field(rng, None, depth - 1, inner, allow_k5)
-            node["item"]["params"].pop("required", None) if rng.random() < 0.7 else None
+            if rng.random() < 0.7 or node["item"]["family"] == "any":
+                # (ListField(AnyField(required=True)) validates as untyped but wraps its default: not generated)
+                node["item"]["params"].pop("required", None)
     elif fam == "dict":
         r = rng.random()
         if r < 0.12:
